@@ -3,7 +3,11 @@
    state machine, one step per iteration of the loop over shells, for every lattice of a small catalogue of integer
    reciprocal lattices, every mesh in MESHES and the parallel-shell rules in RULES.  TLC checks that the
    procedure terminates with a stencil (never "fail": the search box always contains a solution) and that the stencil
-   has the properties C22 demands, verified independently of the elimination that produced the weights. *)
+   has the properties C22 demands, verified independently of the elimination that produced the weights.
+   RULES: "pair" is the specification's procedure (Wannier90); "latt" / "rank3" model the rule of
+   w90files/bkvectors.find_bk_vectors as it is written (for an integer Cartesian basis / for a basis in general
+   position) and are run without the invariant Admits: the harness uses them to decide whether a "no complete set"
+   failure of the code is the one this model predicts; "span" is the rule that function's docstring describes. *)
 EXTENDS BShellsCat
 CONSTANTS MESHES, LATS, RULES, SSC, Variant
 VARIABLES lat, L, rule, st
